@@ -132,7 +132,7 @@ CHECKS = {
              "transition; each visited serialisation is written as real JSON-LD text and compared on two observables: the "
              "@ids/@types index ProcessInput derives (vs Graph!IdsIndex/TypesIndex) and conforms + (severity, validation, focus, "
              "message) set of a profile with count, value, nested, inverse-path, @type and pattern constraints (vs the canonical "
-             "serialisation).",
+             "serialisation). A sample of the serialisations is also given to `acv validate` as rendered and as one line of more than 64 KiB: same verdict and results from both, same verdict as the library.",
         ref="DESIGN.md §6 C05", technique="TLA+ model of JSON-LD surface forms (TLC, exhaustive) replayed into ProcessInput/Validate"),
     "C15": dict(
         text="spec/Profile.tla separates a profile's spelling from its meaning (Abs forgets orders/styles and resolves compact IRIs "
